@@ -84,6 +84,16 @@ Theorem C02_commitments : forall H E (maxb : nat) name key ivf f,
 Proof. exact commitments. Qed.
 Print Assumptions C02_commitments.
 
+(* Both layouts create_stream can publish (old_sort = false / true): same descriptor and blobs, the sd blob is exactly
+   the layout's JSON and the returned sd_hash is hex(H(sd blob)) -- the name under which that blob is stored. *)
+Theorem C02_commitments_both_layouts : forall H E (maxb : nat) old_sort name key ivf f s,
+  create_stream_layout H E maxb old_sort name key ivf f = Some s ->
+  s_desc s = s_desc (build_stream H E maxb name key ivf f) /\ s_cts s = s_cts (build_stream H E maxb name key ivf f) /\
+  s_sd_blob s = (if old_sort then old_sort_json (s_desc s) else as_json (s_desc s)) /\
+  s_sd_hash s = hex (H (s_sd_blob s)).
+Proof. exact layout_created. Qed.
+Print Assumptions C02_commitments_both_layouts.
+
 (* sd_hash binds the descriptor: two descriptors whose text fields print without JSON escapes (hex does) and whose
    sd hashes are equal have the same names, key, stream hash and blob entries -- or an explicit H collision.
    (blob hashes compared through BlobInfo.as_dict, which itself identifies None and ''.)  Every descriptor that
